@@ -186,11 +186,13 @@ def sleeps_ok(sl, ctx=None):
 
 @harness("C15.wait", quick=[dict(role=r, tmo=t, exits=e, eintr=None) for r in ("child", "nonchild") for t in ("sym", "none") for e in (True, False) if not (t == "none" and not e)]
          + [dict(role="never", tmo="sym", exits=False, eintr=None), dict(role="child", tmo="sym", exits=True, eintr=0), dict(role="child", tmo="sym", exits=True, eintr=2), dict(role="child", tmo="zero", exits=True, eintr=None),
-            dict(role="child", tmo="neg", exits=True, eintr=None), dict(role="child", tmo="sym", exits=True, eintr=None, stolen=True)],
+            dict(role="child", tmo="neg", exits=True, eintr=None), dict(role="child", tmo="sym", exits=True, eintr=None, stolen=True), dict(role="child", tmo="sym", exits=True, eintr=None, popen=True)],
          thorough=[dict(role=r, tmo=t, exits=e, eintr=i) for r in ("child", "nonchild") for t in ("sym", "none", "zero") for e in (True, False) for i in (None, 0, 1, 3) if not (t == "none" and not e) and not (i is not None and r != "child")]
          + [dict(role="never", tmo=t, exits=False, eintr=None) for t in ("sym", "none", "zero")] + [dict(role=r, tmo="neg", exits=True, eintr=None) for r in ("child", "nonchild", "never")] + [dict(role="child", tmo=t, exits=True, eintr=i, stolen=True) for t in ("sym", "none") for i in (None, 1)],
          cap=80)
-def wait(ctx, role, tmo, exits, eintr, stolen=False):
+def wait(ctx, role, tmo, exits, eintr, stolen=False, popen=False):
+    """popen: the object is a psutil.Popen (over a subprocess.Popen stand-in): same contract, and the exit status is also stored on
+    the wrapped object"""
     k = simk.Kernel(ctx)
     simk.system_files(k)
     simk.full_process(k, 77)
@@ -199,8 +201,17 @@ def wait(ctx, role, tmo, exits, eintr, stolen=False):
     if tmo == "neg":
         ctx.assume(timeout < 0)
     patches, _ = install_world(k, [w])
-    with k.installed(extra=patches):
-        p = psutil.Process(77)
+    class _Sub:
+        pid, returncode, stdin, stdout, stderr = 77, None, None, None, None
+
+        def __init__(self, *a, **kw):
+            pass
+
+    class _Subprocess:
+        Popen = _Sub
+
+    with k.installed(extra=patches + ([(psutil, "subprocess", _Subprocess)] if popen else [])):
+        p = psutil.Popen(["child"]) if popen else psutil.Process(77)
         n0 = k.naccess_total
         start = k.now
         w.t0, w.started = start, True
@@ -235,6 +246,11 @@ def wait(ctx, role, tmo, exits, eintr, stolen=False):
             npolls2, nsl = len(w.polls), len(k.sleeps)
             r2 = p.wait(timeout)
             ctx.prove((r2 is r or ctx.eq(r2, r)) and len(w.polls) == npolls2 and len(k.sleeps) == nsl, "cached-second-call")
+            if popen:
+                # psutil.Popen.wait() answers from the wrapped object's returncode first, like subprocess.Popen.wait() does, whatever
+                # the timeout: the statement's "negative timeout" clause is about Process.wait() and is not held against Popen
+                ctx.prove(ctx.eq(p.returncode, r) if r is not None else p.returncode is None, "popen-returncode-stored")
+                return
             # ... and a negative timeout is still refused once a result is cached
             neg = ctx.real("later_negative_timeout", -5, 0)
             ctx.assume(neg < 0)
